@@ -206,8 +206,15 @@ def _oracle(label, cases_quick, cases_thorough, **family):
 ORACLES = {
     'C01': [_oracle('single-variable, and/or/not', 250, 3000, nvars=1, depth=3, neg=True, nested_neg=True),
             _oracle('single-variable, bare attribute / index expressions of any type as conditions (truthiness), falsy data', 200, 3000,
-                    nvars=1, depth=2, neg=True, nested_neg=True, falsy=True, vocab=['truthy', 'truth', 'cmp', 'name'])],
-    'C02': [_oracle('two variables, join conditions', 150, 2000, nvars=2, depth=2, neg=False, vocab=['cmp', 'name']),
+                    nvars=1, depth=2, neg=True, nested_neg=True, falsy=True, vocab=['truthy', 'truth', 'cmp', 'name']),
+            _oracle('single-variable over distinct objects that compare equal (plain dataclass), comparisons with the constant '
+                    'None (names may be None)', 200, 3000, nvars=1, depth=3, neg=True, nested_neg=True, n=5, equal_values=True,
+                    none_names=True, vocab=['cmp', 'name', 'none', 'contains', 'call']),
+            _oracle('single-variable, comparisons with the constant None', 100, 1500, nvars=1, depth=2, neg=True, none_names=True,
+                    vocab=['cmp', 'name', 'none'])],
+    'C02': [_oracle('two variables over distinct objects that compare equal, join conditions', 100, 1500, nvars=2, depth=2, neg=False,
+                    n=4, equal_values=True, vocab=['cmp', 'name']),
+            _oracle('two variables, join conditions', 150, 2000, nvars=2, depth=2, neg=False, vocab=['cmp', 'name']),
             _oracle('three variables', 40, 600, nvars=3, depth=2, neg=False, vocab=['cmp'], n=2),
             _oracle('two variables, literal-free conditions (result caches are hit)', 150, 2000, nvars=2, depth=3, neg=True,
                     vocab=['cmp', 'name'], nolit=True),
@@ -256,10 +263,15 @@ ORACLES = {
             _oracle('the() used inside another query: correlated with an outer variable; as the selected term of an enclosing '
                     'the / an / set_of with a further condition', 100, 1500, kind='the_nested')],
     'C07': [_oracle('one-shot iterator domains: pulls per result, nothing pulled twice (cache on)', 200, 3000, kind='lazy'),
-            _oracle('one-shot iterator domains (cache off)', 100, 1500, kind='lazy', caching=False)],
+            _oracle('one-shot iterator domains (cache off)', 100, 1500, kind='lazy', caching=False),
+            _oracle('one-shot iterator domains of 25 elements, no condition at all (an(entity(x)), an(x), an(set_of([x]))): the '
+                    'k-th result after exactly k pulls', 60, 600, kind='lazy', no_condition=True, n=25)],
     'C10': [_oracle('for_all over conditions mentioning the universal variable, the free variables, both or neither', 250, 4000, kind='forall'),
             _oracle('for_all, result cache off', 100, 1500, kind='forall', caching=False),
-            _oracle('for_all with two free variables over one domain', 100, 1500, kind='forall', two_free=True)],
+            _oracle('for_all with two free variables over one domain', 100, 1500, kind='forall', two_free=True),
+            _oracle('for_all combined: two for_all over one universal variable, a for_all followed by a condition that uses the '
+                    'variable existentially, a universal EXPRESSION with falsy values; evaluated twice', 200, 3000, kind='forall',
+                    combined=True)],
     'C17': [_oracle('concatenate value and membership / negated membership against it', 200, 3000, kind='concat'),
             _oracle('concatenate with falsy elements', 100, 1500, kind='concat', falsy=True),
             _oracle('concatenate over a flatten of nested collections', 100, 1500, kind='concat', nested=True)],
@@ -270,7 +282,11 @@ ORACLES = {
                     'order, & | vs and_ or_, mirrored comparisons, contains / in_, conjuncts one by one, domain permutation)', 150,
                     3000, kind='fuzzq'),
             _oracle('four spellings of conjunctions of disjunctions over three variables, literal-free', 200, 3000, kind='fuzzq',
-                    shape='and_of_ors', nvars=3, nolit=True)],
+                    shape='and_of_ors', nvars=3, nolit=True),
+            _oracle('order of the selected expressions: attributes listed before / after the variable they are taken from', 100,
+                    1500, kind='select'),
+            _oracle('order of the selected expressions: flattened element listed before its parent', 40, 400, kind='flatten',
+                    with_cond=False, select_parent=True, element_first=True, n=4)],
     'C11': [_oracle('infer(entity(T(a=x, b=y|y.attr, tag=const), conditions)): constants (None, falsy, iterable), falsy classes, '
                     'bodies with disjunction / negation, zero-solution bodies', 250, 4000, kind='infer'),
             _oracle('inference, conjunctive bodies only', 100, 1500, kind='infer', neg=False, depth=1)],
